@@ -581,6 +581,18 @@ class Engine(ValueOps, ExprOps, CallOps, StmtOps):
         self.called_contracts.add(con.key)
         env = self.bind_params(fi, selfsv, args, kwargs, node)
         saved_env = st.env
+        for pname, pty in con.params.items():
+            # an argument of union type is read at the kind the callee's parameter type declares (typed precondition)
+            a = env.get(pname)
+            if a is not None and a.kind == 'val' and 'any' not in a.ty and isinstance(pty, str):
+                want = {atom_kind(x) for x in parse_ty(pty)}
+                if len(want) == 1 and 'any' not in want and len({atom_kind(x) for x in a.ty}) > 1:
+                    a2 = self.narrow(a)
+                    if a2.kind not in want:
+                        st.oblige(FALSE, 'argument %s of %s has kind %s, the contract expects %s' % (pname, con.key, a2.kind, pty),
+                                  getattr(node, 'lineno', 0), kind='requires')
+                        raise PathInfeasible()
+                    env[pname] = a2
         for it in con.modifies:
             # a local (pure) list that the callee may modify gets its heap identity before the pre-state is recorded
             if it.startswith('list(') and it[5:-1] in env and env[it[5:-1]].kind == 'list' and env[it[5:-1]].owned:
